@@ -22,6 +22,7 @@ import (
 	"sync"
 	"syscall"
 	"time"
+	"verifharness/peers"
 
 	"github.com/pkg/sftp"
 
@@ -135,7 +136,7 @@ func ssStart(cfg ssCfg, tree string, fs *cntFS) (*ssSrv, error) {
 			s.dbg = &ssDbgBuf{}
 			opts = append(opts, sftp.WithDebug(s.dbg))
 		}
-		srv, err := sftp.NewServer(rwc, opts...)
+		srv, err := peers.NewOSServer(rwc, opts...)
 		if err != nil {
 			return nil, err
 		}
